@@ -1,8 +1,8 @@
 package dom
 
 import (
-	"net/url"
 	"encoding/json"
+	"net/url"
 	"os"
 	"sort"
 	"strconv"
@@ -30,7 +30,7 @@ type legacyT struct {
 }
 
 type legacyDom struct {
-	idxs *resbadger.IndexSet
+	idxs    *resbadger.IndexSet
 	dir     string
 	db      *badger.DB
 	run     *svc.Runner
